@@ -8,6 +8,9 @@
 #include <string_theory/iostream>
 
 #include <atomic>
+#include <cstdlib>
+#include <cstring>
+#include <initializer_list>
 #include <new>
 #include <cmath>
 #include <sstream>
@@ -63,6 +66,27 @@ struct Pool {
 struct Op { uint8_t kind, a, b, c; };
 enum { NKINDS = 48 };
 
+// When this harness runs as the concurrent-use stage of ANOTHER property's check (environment VERIF_FAMILY=Cxx), the programs are made
+// of the operation kinds that exercise that property's functions only, so that a few dozen cases in a fresh process put every one of
+// them under simultaneous first use.  Unset: all 48 kinds.
+struct Family { int n = 0; uint8_t k[NKINDS]; };
+const Family &family() {
+    static const Family f = [] {
+        Family r;
+        static const struct { const char *id; std::initializer_list<int> kinds; } tab[] = {
+            {"C01", {14, 15, 16, 21, 22, 23, 45, 30}}, {"C02", {14, 15, 21, 22, 23, 45}}, {"C03", {14, 15, 16, 21, 22, 23, 45}},
+            {"C04", {35, 36, 41, 42, 43, 6, 9, 14}}, {"C05", {19, 20, 40}}, {"C06", {4, 5, 43, 20, 9, 3}}, {"C07", {0, 1, 2, 3, 46}},
+            {"C08", {6, 7, 8, 46}}, {"C09", {10, 11, 12, 13, 44, 46, 47}}, {"C10", {27, 28, 29, 30, 31, 32}}, {"C11", {27, 28, 29, 30, 31, 32}},
+            {"C12", {17, 33, 27, 37}}, {"C13", {18, 34, 27, 28, 29, 37}}, {"C14", {24, 25, 26}}, {"C15", {24, 25, 26}}, {"C16", {37, 38, 39, 44}},
+            {"C17", {30, 31, 32, 27}}, {"C18", {26, 15, 36, 10, 12, 38, 42}}};
+        const char *e = getenv("VERIF_FAMILY");
+        if (e) for (const auto &t : tab) if (!strcmp(e, t.id)) for (int k : t.kinds) r.k[r.n++] = (uint8_t)k;
+        return r;
+    }();
+    return f;
+}
+inline unsigned kind_of(const Op &op) { const Family &f = family(); return f.n ? f.k[op.kind % f.n] : kind_of(op); }
+
 const char *const kNeedles[] = {"a", "ab", ",", " ", "", "the", "THE", "\xC3\xA9", "1", "0x", "aa", "xyz", ";", "-", "e", "\xE2\x82\xAC"};
 const char *const kFormats[] = {"{}", "[{>12}]", "{<8}|{x}", "{_*>20}", "{}{}{}", "{&2} {&1}", "{.3}", "{#x} {+d} {o}", "{f}", "{.70f}", "{.66e}", "{e} {E}", "{+.2f}|{>30}", "{c}{c}", "{_0>300}", "{b}"};
 const double kDoubles[] = {0.0, 1.5, -2.25, 3.14159265358979, 1e63, 1e100, -1e300, 1.7976931348623157e308, 5e-324, 123456789.125, 1e-7, -0.0};
@@ -81,7 +105,7 @@ void run_op(const Pool &P, const Op &op, Local &L, Digest &D) {
     const ST::string &T = P.s[op.b % Pool::N];
     const ST::case_sensitivity_t cs = (op.c & 1) ? ST::case_insensitive : ST::case_sensitive;
     const char *needle = kNeedles[op.b % 16];
-    switch (op.kind % NKINDS) {
+    switch (kind_of(op)) {
     case 0: D.num(S.find(needle, cs)); D.num(S.find(op.c % 20, needle, cs)); break;
     case 1: D.num(S.find_last(needle, cs)); D.num(S.find_last(op.c % 40, needle, cs)); break;
     case 2: D.num(S.find(T, cs)); D.num(S.contains(T, cs)); D.num(S.contains(needle[0] ? needle[0] : 'a', cs)); break;
@@ -225,14 +249,14 @@ int verif_case(const uint8_t *data, size_t size, Case &c) {
     c.label(nthreads <= 2 ? "threads:2" : nthreads <= 4 ? "threads:3-4" : "threads:5-8");
     // shared-use classification: some operation kind (hence the same library function) occurs in >= 2 threads
     bool shared_use = same;
-    if (!same) { unsigned seen[NKINDS] = {0}; for (unsigned p = 0; p < nprog; p++) { bool mine[NKINDS] = {false}; for (const Op &op : progs[p]) mine[op.kind % NKINDS] = true; for (int k = 0; k < NKINDS; k++) if (mine[k] && ++seen[k] >= 2) shared_use = true; } }
+    if (!same) { unsigned seen[NKINDS] = {0}; for (unsigned p = 0; p < nprog; p++) { bool mine[NKINDS] = {false}; for (const Op &op : progs[p]) mine[kind_of(op)] = true; for (int k = 0; k < NKINDS; k++) if (mine[k] && ++seen[k] >= 2) shared_use = true; } }
     c.nontrivial = shared_use;
     bool has_fmt = false, has_longfloat = false, has_tok = false, has_conv = false;
-    for (auto &pr : progs) for (const Op &op : pr) { unsigned k = op.kind % NKINDS; if (k >= 27 && k <= 32) has_fmt = true; if (k >= 27 && k <= 29 && (op.c % 16 == 8 || op.c % 16 == 9 || op.c % 16 == 10) ) has_longfloat = true; if (k == 13 || k == 11 || k == 12) has_tok = true; if (k == 14 || (k >= 21 && k <= 23)) has_conv = true; }
+    for (auto &pr : progs) for (const Op &op : pr) { unsigned k = kind_of(op); if (k >= 27 && k <= 32) has_fmt = true; if (k >= 27 && k <= 29 && (op.c % 16 == 8 || op.c % 16 == 9 || op.c % 16 == 10) ) has_longfloat = true; if (k == 13 || k == 11 || k == 12) has_tok = true; if (k == 14 || (k >= 21 && k <= 23)) has_conv = true; }
     if (has_fmt) c.label("uses:format"); if (has_longfloat) c.label("uses:float-format"); if (has_tok) c.label("uses:split/tokenize"); if (has_conv) c.label("uses:conversions");
     if (c.want_text) {
         c.text = "C20 threads=" + std::to_string(nthreads) + (same ? " same-program" : " different-programs") + " ops=[";
-        for (size_t i = 0; i < progs[0].size() && i < 12; i++) { if (i) c.text += ","; c.text += std::to_string(progs[0][i].kind % NKINDS); }
+        for (size_t i = 0; i < progs[0].size() && i < 12; i++) { if (i) c.text += ","; c.text += std::to_string(kind_of(progs[0][i])); }
         c.text += progs[0].size() > 12 ? ",..] (" + std::to_string(progs[0].size()) + " ops in thread 0)" : "]";
         c.text += " pool sizes=["; for (int i = 0; i < Pool::N; i++) { if (i) c.text += ","; c.text += std::to_string(P->s[i].size()); } c.text += "]";
     }
